@@ -26,6 +26,13 @@ def specHash (s : Str) (ty : String) (circ ds : Bool) : String :=
   "v1_" ++ specTag ty circ ds ++ "_" ++
     String.ofList (hex (Blake3.sum256 ((specCanon (specNorm s ty) circ ds).map fun c => c.toNat.toUInt8)))
 
+/-- a (normalised) sequence with a letter whose OTHER STRAND the property does not define: anything but
+the 15 IUPAC codes and `U` (which pairs with `A`).  Of the accepted nucleotide letters this is `Z`.
+For a double-stranded input with such a letter the strand clauses (value of the digest, separation and
+completeness up to strand) are not judged: whatever the code's complement table answers for `Z` is
+outside the property (the correspondence with the model, which reads the REGENERATED table, still is). -/
+def strandUndefined (w : Str) : Bool := w.any fun c => !(Spec.upperCodes.contains c || c == 'U')
+
 def isHex64 (s : String) : Bool := s.length == 64 && s.toList.all fun c => c.isDigit || ('a' ≤ c && c ≤ 'f')
 
 /-- all words of length n over an alphabet, in odometer order (last letter fastest) -/
@@ -66,6 +73,50 @@ plain rotation of the word itself (rotation invariance is untouched by the defec
 def knownComp (ty : String) (circ ds : Bool) (w o : Str) : Bool :=
   ds && ty == "DNA" && w.contains 'U' && (rots circ (specRc w)).contains o && !(rots circ w).contains o
 
+/-- result of judging a family of (normalised word, hash) pairs against brute-force orbits -/
+structure PartRes where
+  consistent : Bool                -- two words with one normal form have one hash
+  sep : List (Str × Str)           -- same hash, not the same molecule
+  comp : List (Str × Str)          -- same molecule (orbit member in the family), different hash
+  classes : Nat
+
+def PartRes.ok (r : PartRes) : Bool := r.consistent && r.sep.isEmpty && r.comp.isEmpty
+
+def partitionCheck (judged : List (Str × String)) (c d : Bool) : PartRes :=
+  let key := fun (w : Str) => String.ofList w
+  -- word -> hash (two words with the same normal form must have the same hash) and hash -> words
+  let (w2h, h2w, consistent) := judged.foldl
+    (fun (acc : Std.HashMap String String × Std.HashMap String (List Str) × Bool) (p : Str × String) =>
+      let (w2h, h2w, ok) := acc
+      let (w, h) := p
+      match w2h[key w]? with
+      | some h' => (w2h, h2w, ok && h' == h)
+      | none => (w2h.insert (key w) h, h2w.insert h (w :: (h2w.getD h [])), ok))
+    ({}, {}, true)
+  -- (1) separation: two words with the same hash must be the same molecule (brute-force orbits)
+  let sepFails : List (Str × Str) := h2w.fold (fun acc _ cl =>
+    let orbs := cl.map fun w => (w, orbit w c d)
+    let rec pairs : List (Str × List Str) → List (Str × Str) → List (Str × Str)
+      | [], acc => acc
+      | (w, ow) :: rest, acc =>
+        pairs rest (rest.foldl (fun acc (w', ow') => if ow.contains w' || ow'.contains w then acc else (w, w') :: acc) acc)
+    pairs orbs acc) []
+  -- (2) completeness: every member of a word's orbit that is itself a word of the family has the word's hash
+  let compFails : List (Str × Str) := judged.foldl (fun acc (w, h) =>
+    (orbit w c d).foldl (fun acc o =>
+      match w2h[key o]? with
+      | some h' => if h' == h then acc else (w, o) :: acc
+      | none => acc) acc) []
+  { consistent := consistent, sep := sepFails, comp := compFails, classes := h2w.size }
+
+/-- `U → T`: the reading of a DNA word under which known finding C05-dna-u-strand disappears -/
+def foldU (s : Str) : Str := s.map fun c => if c == 'U' then 'T' else c
+
+/-- the inputs a REPAIR of known finding C05-dna-u-strand changes: type DNA and a `U`/`u` in the sequence
+(a repair cannot be confined to double-stranded inputs: rejecting `U` under DNA, or rewriting it to `T` as
+under RNA, acts on every DNA input that contains it) -/
+def dnaU (s : Str) (ty : String) : Bool := ty == "DNA" && (upper s).contains 'U'
+
 /-- cases:
   `form s ty circ ds`        : one Hash call; value must be the published v1 form of the canonical representative,
                                or an error exactly when the input is not acceptable
@@ -86,14 +137,26 @@ def judge (f out : List String) : Verdict :=
     let m := C04.outStr (hash Blake3.sum256 cs ty (C04.b circ) (C04.b ds))
     let o := C04.normOut out
     let acc := C04.accepted cs ty (C04.b ds)
+    let noStrand := acc && C04.b ds && strandUndefined (specNorm cs ty)
     let j := if acc then
         (match o with
-         | ["ok", h] => h == specHash cs ty (C04.b circ) (C04.b ds) && isHex64 (h.drop 7).toString && h.length == 71
+         | ["ok", h] =>
+           (if noStrand then h.startsWith ("v1_" ++ specTag ty (C04.b circ) (C04.b ds) ++ "_")
+            else h == specHash cs ty (C04.b circ) (C04.b ds)) && isHex64 (h.drop 7).toString && h.length == 71
          | _ => false)
       else o == ["err"]
-    { corr := o == m, judge := some j,
-      cls := (if acc then (if cs.length < 2 then "triv:" else "") ++ "form/" ++ specTag ty (C04.b circ) (C04.b ds) else "reject"),
-      detail := if o == m && j then "" else lineOf (m ++ ["spec", if acc then specHash cs ty (C04.b circ) (C04.b ds) else "err"]) }
+    -- FALSE-ALARM RULE for known finding C05-dna-u-strand.  The model mirrors the defect (U accepted under DNA and
+    -- complemented like T).  If the code is REPAIRED, replies on DNA inputs containing U change although the property
+    -- holds of them (better than before): either the input is rejected (the statement lets a type's alphabet exclude U:
+    -- its quantifier names U only under RNA), or it is hashed in the v1 form of the sequence with U read as T (as under
+    -- RNA).  Both satisfy the form / rejection clauses, so the judge passes and the difference from the model is DRIFT.
+    let repaired := acc && dnaU cs ty && o != m &&
+      (o == ["err"] || (noStrand && j) || o == ["ok", specHash (foldU (upper cs)) ty (C04.b circ) (C04.b ds)])
+    let j := j || repaired
+    { corr := o == m || repaired, judge := some j,
+      cls := (if acc then (if cs.length < 2 then "triv:" else "") ++ "form/" ++ specTag ty (C04.b circ) (C04.b ds) ++
+                (if noStrand then "/strand-undefined" else "") ++ (if repaired then "/kf-repaired" else "") else "reject"),
+      detail := if (o == m || repaired) && j then "" else lineOf (m ++ ["spec", if acc then specHash cs ty (C04.b circ) (C04.b ds) else "err"]) }
   | ["partition", alpha, n, ty, circ, ds] =>
     let ws := allWords alpha.toList (natOfStr n)
     match out with
@@ -102,45 +165,46 @@ def judge (f out : List String) : Verdict :=
       let hs := match fields with | [joined] => joined.splitOn "," | fs => fs
       if hs.length != ws.length then { corr := false, judge := some false, cls := "partition", detail := "count mismatch" } else
       let c := C04.b circ; let d := C04.b ds
-      -- correspondence: the model's hash of every word
-      let corr := (ws.zip hs).all fun (w, h) => C04.outStr (hash Blake3.sum256 w ty c d) == ["ok", h]
+      -- correspondence: the model's hash of every word (`err` = the word was rejected)
+      let corrWord := fun (w : Str) (h : String) =>
+        C04.outStr (hash Blake3.sum256 w ty c d) == (if h == "err" then ["err"] else ["ok", h])
+      let corr := (ws.zip hs).all fun (w, h) => corrWord w h
+      let anyErr := hs.any (· == "err")
       -- the sequences the hashes are about: normalised words (upper case; U read as T under RNA)
       let nws := ws.map fun w => specNorm w ty
-      let key := fun (w : Str) => String.ofList w
-      -- word -> hash (two words with the same normal form must have the same hash) and hash -> words
-      let (w2h, h2w, consistent) := (nws.zip hs).foldl
-        (fun (acc : Std.HashMap String String × Std.HashMap String (List Str) × Bool) (p : Str × String) =>
-          let (w2h, h2w, ok) := acc
-          let (w, h) := p
-          match w2h[key w]? with
-          | some h' => (w2h, h2w, ok && h' == h)
-          | none => (w2h.insert (key w) h, h2w.insert h (w :: (h2w.getD h [])), ok))
-        ({}, {}, true)
-      -- (1) separation: two words with the same hash must be the same molecule (brute-force orbits)
-      let sepFails : List (Str × Str) := h2w.fold (fun acc _ cl =>
-        let orbs := cl.map fun w => (w, orbit w c d)
-        let rec pairs : List (Str × List Str) → List (Str × Str) → List (Str × Str)
-          | [], acc => acc
-          | (w, ow) :: rest, acc =>
-            pairs rest (rest.foldl (fun acc (w', ow') => if ow.contains w' || ow'.contains w then acc else (w, w') :: acc) acc)
-        pairs orbs acc) []
-      -- (2) completeness: every member of a word's orbit that is itself a word of the family has the word's hash
-      let compFails : List (Str × Str) := (nws.zip hs).foldl (fun acc (w, h) =>
-        (orbit w c d).foldl (fun acc o =>
-          match w2h[key o]? with
-          | some h' => if h' == h then acc else (w, o) :: acc
-          | none => acc) acc) []
+      -- double-stranded: words with a letter whose other strand the property does not define (`Z`) are
+      -- outside the strand clauses (they stay in the correspondence above)
+      let inStrand := fun (w : Str) => !(d && strandUndefined w)
+      let judged := (nws.zip hs).filter (fun (w, _) => inStrand w)
+      let res := partitionCheck judged c d
+      let sepFails := res.sep; let compFails := res.comp; let consistent := res.consistent
       let (sepKnown, sepNew) := sepFails.partition fun (w, w') => knownSep ty c d w w'
       let (compKnown, compNew) := compFails.partition fun (w, o) => knownComp ty c d w o
       let nfails := sepFails.length + compFails.length
-      let ok := consistent && nfails == 0
-      -- the known-finding tag needs: every failing pair is in the exact class AND the implementation agrees with the
+      -- every word of a partition family is acceptable: a rejected word is a failure of the reading "as the model has it"
+      let ok := consistent && nfails == 0 && !anyErr
+      -- FALSE-ALARM RULE for known finding C05-dna-u-strand (see the `form` case): on a DNA family with U, if the
+      -- replies do not fit the model's reading but the property HOLDS of them under a repaired reading — (B) U read as
+      -- T, as under RNA: partition by hash = brute-force orbit partition of the U→T-folded words; or (C) U rejected:
+      -- exactly the words containing U are rejected and the partition of the others is right — the judge passes and
+      -- the difference from the model on the words containing U is drift.
+      let hasU := ty == "DNA" && (upper alpha.toList).contains 'U'
+      let okB := hasU && !ok && !anyErr &&
+        (partitionCheck ((nws.zip hs).filterMap fun (w, h) => let w' := foldU w; if inStrand w' then some (w', h) else none) c d).ok
+      let okC := hasU && !ok && anyErr &&
+        (nws.zip hs).all (fun (w, h) => (h == "err") == w.contains 'U') &&
+        (partitionCheck (judged.filter fun (w, _) => !w.contains 'U') c d).ok
+      let repaired := okB || okC
+      let corrUfree := (ws.zip hs).all fun (w, h) => (upper w).contains 'U' || corrWord w h
+      -- the known-finding tag needs: every failing pair is in the class AND the implementation agrees with the
       -- model (which IS the recorded defect) on every word of the family
-      let kf := nfails != 0 && consistent && sepNew.isEmpty && compNew.isEmpty && corr
-      { corr := corr, judge := some ok,
-        cls := (if kf then "kf:C05-dna-u-strand/" else "") ++ "partition/" ++ specTag ty c d ++ "/" ++ alpha ++ "/" ++ n,
-        detail := if ok && corr then s!"classes={h2w.size}"
+      let kf := !repaired && !anyErr && nfails != 0 && consistent && sepNew.isEmpty && compNew.isEmpty && corr
+      { corr := if repaired then corrUfree else corr, judge := some (ok || repaired),
+        cls := (if kf then "kf:C05-dna-u-strand/" else "") ++ "partition/" ++ specTag ty c d ++ "/" ++ alpha ++ "/" ++ n ++
+               (if repaired then "/kf-repaired" else ""),
+        detail := if (ok && corr) || repaired then s!"classes={res.classes}"
           else if ok then "model differs from the implementation on some word"
+          else if anyErr then "a word of the family was rejected"
           else if !consistent then "two words with the same normalised sequence have different hashes"
           else
             let show2 := fun (p : Str × Str) => String.ofList p.1 ++ "~" ++ String.ofList p.2
